@@ -74,6 +74,7 @@ func c18Follow(fs fsutil.FS, reqs []string) Sx {
 		}()
 		res, err := fsutil.FollowLinks(fs, reqs)
 		if err != nil {
+			if os.Getenv("C18_DEBUG") != "" { fmt.Fprintf(os.Stderr, "ERR: %+v\n", err) }
 			done <- L(N(1), S(errClass(err)))
 			return
 		}
@@ -202,7 +203,7 @@ type c18Entry struct {
 	isLnk bool
 }
 
-var c18Names = []string{"a", "b", "c", "d", "e", "f", "l", "m", "self", "a!", "a*", "ab", "é", "x y", "a-b", "a.b", "日本", "\x80"}
+var c18Names = []string{"a", "b", "c", "d", "e", "f", "l", "m", "self", "a!", "a*", "ab", "é", "x y", "a-b", "a.b", "日本", "\x80", "[a]", "a?"}
 
 func c18Rel(fromDir, to string) string {
 	// lexical relative path from directory fromDir to to (both relative to the root, "" = root)
@@ -237,7 +238,7 @@ func c18Parent(p string) string {
 }
 
 // c18GenView: small trees whose links point at things that exist.
-func c18GenView(r *Rng, rich bool) ([]*MNode, []c18Entry) {
+func c18GenView(r *Rng, rich, clean bool) ([]*MNode, []c18Entry) {
 	root := &MNode{Name: "", Stat: &types.Stat{Mode: uint32(os.ModeDir | 0755)}}
 	type dref struct {
 		n     *MNode
@@ -296,7 +297,11 @@ func c18GenView(r *Rng, rich bool) ([]*MNode, []c18Entry) {
 		dir := c18Parent(e.path)
 		to := Pick(r, all)
 		var t string
-		switch k := r.Intn(100); {
+		k := r.Intn(100)
+		if clean && ((k >= 50 && k < 56) || (k >= 70 && k < 75)) {
+			k = r.Intn(50) // no ".." after a name in clean mode
+		}
+		switch {
 		case k < 30:
 			t = c18Rel(dir, to)
 		case k < 42:
@@ -323,7 +328,7 @@ func c18GenView(r *Rng, rich bool) ([]*MNode, []c18Entry) {
 		case k < 88:
 			t = strings.Replace(c18Rel(dir, to), "/", "//", 1) + "/."
 		case k < 92:
-			t = Pick(r, []string{"*", "a*", "?", "*/a", "/d/*", "a?"})
+			t = Pick(r, []string{"*", "a*", "?", "*/a", "/d/*", "a?", "[a]", "[a]/b", "a[*"})
 		case k < 94:
 			t = ""
 		default:
@@ -336,7 +341,7 @@ func c18GenView(r *Rng, rich bool) ([]*MNode, []c18Entry) {
 	return root.Kids, ents
 }
 
-func c18GenReqs(r *Rng, ents []c18Entry, rich bool) ([]string, string) {
+func c18GenReqs(r *Rng, ents []c18Entry, rich, clean bool) ([]string, string) {
 	names := c18Names[:9]
 	if rich {
 		names = c18Names
@@ -362,7 +367,11 @@ func c18GenReqs(r *Rng, ents []c18Entry, rich bool) ([]string, string) {
 	cls := ""
 	for i := 0; i < n; i++ {
 		var q, c string
-		switch k := r.Intn(100); {
+		k := r.Intn(100)
+		if clean && ((k >= 48 && k < 54) || (k >= 75 && k < 80) || (k >= 88 && k < 95)) {
+			k = r.Intn(48) // no deliberate revisit, inner "..", middle wildcard in clean mode
+		}
+		switch {
 		case k < 18:
 			q, c = Pick(r, all), "existing"
 		case k < 34:
@@ -394,7 +403,13 @@ func c18GenReqs(r *Rng, ents []c18Entry, rich bool) ([]string, string) {
 		case k < 95: // wildcard in a middle component
 			w := Pick(r, []string{"*", "?", "a*", "[d-f]"})
 			q, c = w+"/"+Pick(r, names), "wild-mid"
-			if r.Chance(40) {
+			if r.Chance(50) { // aim at an existing entry: replace one middle component by a wildcard
+				parts := strings.Split(Pick(r, all), "/")
+				if len(parts) >= 2 {
+					parts[r.Intn(len(parts)-1)] = w
+					q = strings.Join(parts, "/")
+				}
+			} else if r.Chance(40) {
 				q = Pick(r, names) + "/" + q
 			}
 		case k < 97:
@@ -421,9 +436,16 @@ func c18Input(roots []*MNode, reqs []string) Sx {
 	return L(ViewSx(roots), L(rs...))
 }
 
+// c18Materialisable: the view can be written to disk (no empty link target) and every symlink
+// on a walked path is one the resolver notices.  A name containing '[' is read as a pattern that
+// does not match its own text; on disk the resolver then lstat()s THROUGH such a symlink (the OS
+// follows it, ELOOP or a host path), which a view-only FS cannot show.
 func c18Materialisable(ents []c18Entry) bool {
 	for _, e := range ents {
 		if e.isLnk && e.node.Stat.Linkname == "" {
+			return false
+		}
+		if strings.Contains(e.node.Name, "[") {
 			return false
 		}
 	}
@@ -455,11 +477,15 @@ func minInt(a, b int) int {
 func genC18(g *Gen) {
 	r := g.Rng
 	// (a) FollowLinks over MemFS
-	nA := g.Vol(1400, 40000)
+	nA := g.Vol(5000, 60000)
 	for i := 0; i < nA; i++ {
 		rich := i%3 == 2
-		roots, ents := c18GenView(r, rich)
-		reqs, cls := c18GenReqs(r, ents, rich)
+		clean := i%5 < 2
+		roots, ents := c18GenView(r, rich, clean)
+		reqs, cls := c18GenReqs(r, ents, rich, clean)
+		if clean {
+			cls = "clean-" + cls
+		}
 		in := c18Input(roots, reqs)
 		out := run1801(in)
 		nlinks := 0
